@@ -73,7 +73,7 @@ def c19(pid, tier, replay):
                 hs = [p["h"] for p in r["printed"]]
                 rng.shuffle(hs)
                 for i, h in enumerate(hs[:40000 if thorough else 4000]):
-                    scen.append({"id": "C19-seq-%05d" % i, "h": h})
+                    scen.append({"id": "C19-seq-%05d" % i, "h": h, "enderr": ["", "", "", "other", "notexist"][i % 5]})
         # (i) every mask x every change x same / other interface
         n = 0
         for mask in range(1, 128):
@@ -113,7 +113,7 @@ def c19(pid, tier, replay):
                     h.append({"op": "drain", "i": rng.randrange(1, nsub + 1)})
                 else:
                     h.append({"op": "end"})
-            scen.append({"id": "C19-rand-%05d" % j, "h": h})
+            scen.append({"id": "C19-rand-%05d" % j, "h": h, "enderr": ["", "", "other", "notexist"][j % 4]})
         # (iv) concurrent Subscribe || notify || end
         for j in range(300 if thorough else 30):
             scen.append({"id": "C19-conc-%04d" % j, "conc": True, "seed": vf.seed() * 1000 + j, "subs": 6, "batches": 80,
@@ -204,7 +204,8 @@ def c20(pid, tier, replay):
                 keep.append(p)
             rng.shuffle(keep)
             for i, p in enumerate(keep[:6000 if thorough else 700]):
-                scen.append({"kind": "serve", "id": "C20-serve%d-%05d" % (n, i), "beh": p["beh"], "h": p["h"], "sig": p["sig"]})
+                scen.append({"kind": "serve", "id": "C20-serve%d-%05d" % (n, i), "beh": p["beh"], "h": p["h"], "sig": p["sig"],
+                             "failwrap": i % 3 == 0})
         # every signal kind, repeated (statistical exposure of the set-before-cancel ordering)
         for j in range(400 if thorough else 60):
             sig = ["term", "hup", "int"][j % 3]
